@@ -130,7 +130,7 @@ Sb = make_mem("sb", 40, is_load=False)
 Sh = make_mem("sh", 41, is_load=False)
 Swl = make_mem("swl", 42, is_load=False)
 Sw = make_mem("sw", 43, is_load=False)
-Swr = make_mem("swr", 44, is_load=False)
+Swr = make_mem("swr", 46, is_load=False)
 
 # Arithmatic instructions:
 Add = make_r("add", 0, 32)
